@@ -579,8 +579,9 @@ mod fp61bit {
             let val = (val & PRIME) + (val >> Self::BITS);
             // another round if val ended up being greater than PRIME
             let val = (val & PRIME) + (val >> Self::BITS);
-            if val == PRIME {
-                Self::ZERO
+            // After two folding rounds `val` is at most `PRIME + 64`.
+            if val >= PRIME {
+                Self((val - PRIME) as <Self as SharedValue>::Storage)
             } else {
                 Self(val as <Self as SharedValue>::Storage)
             }
